@@ -89,6 +89,11 @@ class Facts:
         for conn in done:
             if any(d != '3probe' for (_, _, d) in conn.sent_s):
                 return conn
+        # (nothing was written to any of them: the one the server went on
+        # *reading* - a frame taken after the UPGRADE - is the carrier)
+        for conn in done:
+            if len(conn.recv_s) > 2:
+                return conn
         return done[0] if done else None
 
     # -- end causes ------------------------------------------------------------
